@@ -7,5 +7,5 @@ git -C /repo apply "$P" || { echo "APPLY FAILED $P"; exit 3; }
 trap 'git -C /repo checkout -- . ; rm -rf "$SCR"' EXIT
 cp /verif/known_findings.json "$SCR/" 2>/dev/null
 for id in "$@"; do
-  /verif/bin/cachelint -repo /repo -verif "$SCR" -prop "$id" 2>&1 | grep -E "quick:|violated|VIOLATION|BROKEN|UNDECIDED|KNOWN" | cut -c1-330
+  ${CL:-/verif/bin/cachelint} -repo /repo -verif "$SCR" -prop "$id" 2>&1 | grep -E "quick:|violated|VIOLATION|BROKEN|UNDECIDED|KNOWN" | cut -c1-330
 done
